@@ -32,7 +32,25 @@ func vHarnessPnftGenesisRoundTrip() {
 		vAssume(err == nil)
 		denomOwner = C
 	}
+	// a second denom with its own token (exercises grouping / ordering in export)
+	two := vNondetBool("secondDenom")
+	d2, t2 := vNondetString("denom2", vIdMax), vNondetString("token2", vIdMax)
+	if two {
+		_, err = ms.CreateDenom(c1, &types.MsgCreateDenomRequest{Id: d2, Name: "n2", Symbol: "s2", Creator: B})
+		vAssume(err == nil)
+		_, err = ms.MintPNFT(c1, &types.MsgMintPNFTRequest{DenomId: d2, Id: t2, Name: "tok2", Creator: B})
+		vAssume(err == nil)
+	}
 	gs := ExportGenesis(ctx1, k1)
+	if two {
+		vCover("two denoms exported")
+		// exporting the same state twice gives the same genesis (same order of denoms and tokens)
+		gsAgain := ExportGenesis(ctx1, k1)
+		vCheck(len(gs.Pnfts) == 2 && len(gsAgain.Pnfts) == 2 && len(gs.Denoms) == 2 && len(gsAgain.Denoms) == 2, "C08: both denoms and tokens are exported")
+		if len(gs.Pnfts) == 2 && len(gsAgain.Pnfts) == 2 {
+			vCheck(vAll(gs.Pnfts[0].Id == gsAgain.Pnfts[0].Id, gs.Pnfts[0].DenomId == gsAgain.Pnfts[0].DenomId, gs.Pnfts[1].Id == gsAgain.Pnfts[1].Id, gs.Pnfts[1].DenomId == gsAgain.Pnfts[1].DenomId), "C08: exporting the same state twice lists the tokens in the same order")
+		}
+	}
 	vCheck(gs.ValidateBasic() == nil, "C08: the exported PNFT genesis passes the module's own validation")
 	ctx2, k2 := vEnvPnftG()
 	InitGenesis(ctx2, k2, *gs) // a panic here escapes = violation
